@@ -97,6 +97,16 @@ X('x:cat-guarded-header', lambda s: petl.cat(s, header=probes.guard(['f2', 'f0']
 X('x:fieldmap-guarded', lambda s: petl.fieldmap(s, probes.guard({'a': 'f0', 'b': 'f1'})))
 X('x:addfields-guarded', lambda s: petl.addfields(s, probes.guard([['z', 1], ['y', 2, 0]])))
 X('x:selectin-guarded', lambda s: petl.selectin(s, 'f0', probes.guard([1, 2])))
+X('x:unflatten-guarded-values-3', lambda s: petl.unflatten(probes.guard([1, 'a', 2, 'b', 3, 'c', 4]), 3, missing='M'))
+X('x:unflatten-guarded-values-2', lambda s: petl.unflatten(probes.guard(['x', 1, 'y']), 2))
+X('x:unflatten-guarded-values-4', lambda s: petl.unflatten(probes.guard([1, 2, 3, 4, 5]), 4))
+X('x:addcolumn-guarded-column', lambda s: petl.addcolumn(s, 'q', probes.guard([1, 2])), variant='rect')
+X('x:addcolumn-guarded-column-long', lambda s: petl.addcolumn(s, 'q', probes.guard([1, 2, 3, 4, 5, 6, 7, 8]), missing='M'), variant='rect')
+X('x:fromcolumns-guarded', lambda s: petl.fromcolumns(probes.guard([[1, 2, 3], ['a', 'b']]), missing='M'))
+X('x:fromdicts-guarded', lambda s: petl.fromdicts(probes.guard([{'a': 1}, {'a': 2, 'b': 3}]), header=['a', 'b', 'c']))
+X('x:annex-guarded-second', lambda s: petl.annex(s, probes.guard([['q'], [1], [2, 3]]), missing='M'))
+X('x:cat-guarded-second', lambda s: petl.cat(s, probes.guard([['f1', 'zz'], ['p'], ['q', 'r', 's']]), missing='M'))
+X('x:stack-guarded-second', lambda s: petl.stack(s, probes.guard([['a'], ['p'], ['q', 'r', 's', 't']]), missing='M'))
 X('x:mergesort-guarded-header', lambda s: petl.mergesort(s, s, key='f0', header=probes.guard(['f0', 'f2'])))
 X('x:mergesort-presorted', lambda s: petl.mergesort(s, [['f0', 'f1', 'f2'], [2, 'm', 'n']], key='f0', presorted=True, missing='NA'))
 X('x:mergesort-presorted-header', lambda s: petl.mergesort(s, s, key='f0', presorted=True, header=['f2', 'f0', 'zz']))
